@@ -33,4 +33,8 @@ def genP : PTables where
 /-- the regenerated tables as arrays (what the compiled driver reads) -/
 def genT : Tables := genP.toTables
 
+/-- the fuel the driver gives the loop for `n` tokens: more than the loop can use (theorems
+    `Csvq.C18.lalr_terminates`, `lalr_driver_fuel_enough`), so that running out of it would be a disagreement -/
+def driverFuel (n : Nat) : Nat := (measureBound + 1) * n + 2 * measureBound + 3
+
 end Csvq.Lalr
